@@ -23,7 +23,7 @@ func checkC07(p *Prog, res *Result, tier string) {
 	res.rule("C07-R3", "previous version only when superseded; marker never deleted before the version it hides", 2)
 	res.rule("C07-R4", "skip test before each engine delete; failures reach the skipped-key update; non-CAS errors set the skipped key", 5)
 	res.rule("C07-R5", "compaction revision clamp (C09-R2)", 1)
-	res.rule("C07-R6", "every adapter's compare-and-delete compares the stored value / version before deleting (C11-R1)", 6)
+	res.rule("C07-R6", "every adapter's compare-and-delete compares the stored value / version before deleting (C11-R1); the metrics wrapper forwards deletes unchanged and returns their error (C11-R5)", 6)
 
 	compactF := p.structField("pkg/backend/scanner", "workerConfig", "compact")
 	revF := p.structField("pkg/backend/scanner", "workerConfig", "revision")
@@ -238,100 +238,101 @@ func checkC07(p *Prog, res *Result, tier string) {
 			default:
 				res.ok("C07-R1", construct, pos, "guarded by timeoutRevision != 0, which is assigned non-zero only under the scan's compact flag")
 			}
-			continue
 		}
-		if underCompact {
-			res.ok("C07-R1", construct, pos, "the chain "+ch.String()+" passes workerConfig.compact == true")
-		} else {
-			res.bad("C07-R1", construct, pos, "a deletion site of the scan worker is reachable when the worker is not compacting: a range read deletes data: "+ch.String())
-		}
-		// ---- R2 ----
-		construct = fmt.Sprintf("%s: %s deletes nothing above the compaction revision", funcName(run), tag)
-		notAbove := false
-		for _, cf := range facts {
-			if cf.X != nil && ch.same(cf.X, cf.level, curRev, 0) && isFieldLoad(cf.Y, revF) && ((cf.Op == token.GTR && !cf.Want) || (cf.Op == token.LEQ && cf.Want)) {
-				notAbove = true
-			}
-		}
-		if !notAbove {
-			res.bad("C07-R2", construct, pos, "the site is not guarded by the false branch of 'decoded revision > compaction revision': versions newer than R can be deleted and reads at >= R change: "+ch.String())
-		} else if s.role != "current index" {
-			res.ok("C07-R2", construct, pos, "guarded by decoded revision <= R")
-		} else {
-			isIdx, len9, parsedOK := false, false, false
-			for _, cf := range facts {
-				if cf.X == nil {
-					continue
-				}
-				if ch.same(cf.X, cf.level, curRev, 0) && isZeroConst(cf.Y) && ((cf.Op == token.EQL && cf.Want) || (cf.Op == token.NEQ && !cf.Want)) {
-					isIdx = true
-				}
-				if k, ok := constInt(cf.Y); ok && k == 9 && ((cf.Op == token.EQL && cf.Want) || (cf.Op == token.NEQ && !cf.Want)) {
-					if c, ok := resolve(cf.X).(*ssa.Call); ok {
-						if bi, ok := c.Common().Value.(*ssa.Builtin); ok && bi.Name() == "len" {
-							len9 = true
-						}
-					}
-				}
-				if _, ok := decodedUint64(cf.X); ok && isFieldLoad(cf.Y, revF) && ((cf.Op == token.GTR && !cf.Want) || (cf.Op == token.LEQ && cf.Want)) {
-					parsedOK = true
-				}
-			}
-			switch {
-			case s.prim != "DelCurrent":
-				res.bad("C07-R2", construct, pos, "the index record is removed by an unconditional delete instead of compare-and-delete: a key re-created since the snapshot loses its index")
-			case !isIdx || !len9:
-				res.bad("C07-R2", construct, pos, "the index site is not restricted to index records (revision == 0) carrying the deletion flag (9 bytes): live keys lose their index")
-			case !parsedOK:
-				res.bad("C07-R2", construct, pos, "the index of a deleted key is removed without comparing the revision stored in it with the compaction revision: a delete newer than R (or an unresolved unknown-outcome delete) is compacted away")
-			default:
-				res.ok("C07-R2", construct, pos, "revision == 0, 9-byte value, parsed revision <= R, compare-and-delete")
-			}
-		}
-		// ---- R3 ----
-		if s.role == "previous version" {
-			prevSite = top
-			construct = fmt.Sprintf("%s: previous version deleted only when superseded", funcName(run))
-			sameKey, prevPos := false, false
-			for _, cf := range facts {
-				if cf.Call != nil && cf.Want {
-					if sc := cf.Call.Common().StaticCallee(); sc != nil && sc.Pkg != nil && sc.Pkg.Pkg.Path() == "bytes" && sc.Name() == "Equal" {
-						if ch.same(cf.Call.Common().Args[0], cf.level, curKey, 0) || ch.same(cf.Call.Common().Args[1], cf.level, curKey, 0) {
-							sameKey = true
-						}
-					}
-				}
-				if cf.X != nil && isZeroConst(cf.Y) && ((cf.Op == token.GTR && cf.Want) || (cf.Op == token.NEQ && cf.Want)) {
-					if _, isPhi := ch.up(cf.X, cf.level).(*ssa.Phi); isPhi {
-						prevPos = true
-					}
-				}
-			}
-			if sameKey && prevPos {
-				res.ok("C07-R3", construct, pos, "on the branch current user key == previous user key and prevRevision > 0: a newer version <= R of the same key exists")
+		if s.role != "expiry" {
+			if underCompact {
+				res.ok("C07-R1", construct, pos, "the chain "+ch.String()+" passes workerConfig.compact == true")
 			} else {
-				res.bad("C07-R3", construct, pos, "the previous version is deleted without having established that the current record is a newer version (<= R) of the same key: the newest version <= R of a key can be removed")
+				res.bad("C07-R1", construct, pos, "a deletion site of the scan worker is reachable when the worker is not compacting: a range read deletes data: "+ch.String())
 			}
-		}
-		if s.role == "current record" {
-			markerSite = top
-			construct = fmt.Sprintf("%s: current record deleted only if it is a deletion marker", funcName(run))
-			isMarker := false
+			// ---- R2 ----
+			construct = fmt.Sprintf("%s: %s deletes nothing above the compaction revision", funcName(run), tag)
+			notAbove := false
 			for _, cf := range facts {
-				if cf.Call != nil && cf.Want {
-					if sc := cf.Call.Common().StaticCallee(); sc != nil && sc.Pkg != nil && sc.Pkg.Pkg.Path() == "bytes" && sc.Name() == "Equal" {
-						if ts.is(cf.Call.Common().Args[0]) || ts.is(cf.Call.Common().Args[1]) {
-							isMarker = true
+				if cf.X != nil && ch.same(cf.X, cf.level, curRev, 0) && isFieldLoad(cf.Y, revF) && ((cf.Op == token.GTR && !cf.Want) || (cf.Op == token.LEQ && cf.Want)) {
+					notAbove = true
+				}
+			}
+			if !notAbove {
+				res.bad("C07-R2", construct, pos, "the site is not guarded by the false branch of 'decoded revision > compaction revision': versions newer than R can be deleted and reads at >= R change: "+ch.String())
+			} else if s.role != "current index" {
+				res.ok("C07-R2", construct, pos, "guarded by decoded revision <= R")
+			} else {
+				isIdx, len9, parsedOK := false, false, false
+				for _, cf := range facts {
+					if cf.X == nil {
+						continue
+					}
+					if ch.same(cf.X, cf.level, curRev, 0) && isZeroConst(cf.Y) && ((cf.Op == token.EQL && cf.Want) || (cf.Op == token.NEQ && !cf.Want)) {
+						isIdx = true
+					}
+					if k, ok := constInt(cf.Y); ok && k == 9 && ((cf.Op == token.EQL && cf.Want) || (cf.Op == token.NEQ && !cf.Want)) {
+						if c, ok := resolve(cf.X).(*ssa.Call); ok {
+							if bi, ok := c.Common().Value.(*ssa.Builtin); ok && bi.Name() == "len" {
+								len9 = true
+							}
+						}
+					}
+					if _, ok := decodedUint64(cf.X); ok && isFieldLoad(cf.Y, revF) && ((cf.Op == token.GTR && !cf.Want) || (cf.Op == token.LEQ && cf.Want)) {
+						parsedOK = true
+					}
+				}
+				switch {
+				case s.prim != "DelCurrent":
+					res.bad("C07-R2", construct, pos, "the index record is removed by an unconditional delete instead of compare-and-delete: a key re-created since the snapshot loses its index")
+				case !isIdx || !len9:
+					res.bad("C07-R2", construct, pos, "the index site is not restricted to index records (revision == 0) carrying the deletion flag (9 bytes): live keys lose their index")
+				case !parsedOK:
+					res.bad("C07-R2", construct, pos, "the index of a deleted key is removed without comparing the revision stored in it with the compaction revision: a delete newer than R (or an unresolved unknown-outcome delete) is compacted away")
+				default:
+					res.ok("C07-R2", construct, pos, "revision == 0, 9-byte value, parsed revision <= R, compare-and-delete")
+				}
+			}
+			// ---- R3 ----
+			if s.role == "previous version" {
+				prevSite = top
+				construct = fmt.Sprintf("%s: previous version deleted only when superseded", funcName(run))
+				sameKey, prevPos := false, false
+				for _, cf := range facts {
+					if cf.Call != nil && cf.Want {
+						if sc := cf.Call.Common().StaticCallee(); sc != nil && sc.Pkg != nil && sc.Pkg.Pkg.Path() == "bytes" && sc.Name() == "Equal" {
+							if ch.same(cf.Call.Common().Args[0], cf.level, curKey, 0) || ch.same(cf.Call.Common().Args[1], cf.level, curKey, 0) {
+								sameKey = true
+							}
+						}
+					}
+					if cf.X != nil && isZeroConst(cf.Y) && ((cf.Op == token.GTR && cf.Want) || (cf.Op == token.NEQ && cf.Want)) {
+						if _, isPhi := ch.up(cf.X, cf.level).(*ssa.Phi); isPhi {
+							prevPos = true
 						}
 					}
 				}
+				if sameKey && prevPos {
+					res.ok("C07-R3", construct, pos, "on the branch current user key == previous user key and prevRevision > 0: a newer version <= R of the same key exists")
+				} else {
+					res.bad("C07-R3", construct, pos, "the previous version is deleted without having established that the current record is a newer version (<= R) of the same key: the newest version <= R of a key can be removed")
+				}
 			}
-			if isMarker {
-				res.ok("C07-R3", construct, pos, "guarded by value == deletion marker")
-			} else {
-				res.bad("C07-R3", construct, pos, "the current (newest <= R) record of a key is deleted although it is not a deletion marker: a live key vanishes")
+			if s.role == "current record" {
+				markerSite = top
+				construct = fmt.Sprintf("%s: current record deleted only if it is a deletion marker", funcName(run))
+				isMarker := false
+				for _, cf := range facts {
+					if cf.Call != nil && cf.Want {
+						if sc := cf.Call.Common().StaticCallee(); sc != nil && sc.Pkg != nil && sc.Pkg.Pkg.Path() == "bytes" && sc.Name() == "Equal" {
+							if ts.is(cf.Call.Common().Args[0]) || ts.is(cf.Call.Common().Args[1]) {
+								isMarker = true
+							}
+						}
+					}
+				}
+				if isMarker {
+					res.ok("C07-R3", construct, pos, "guarded by value == deletion marker")
+				} else {
+					res.bad("C07-R3", construct, pos, "the current (newest <= R) record of a key is deleted although it is not a deletion marker: a live key vanishes")
+				}
 			}
-		}
+		} // R1 (compact flag), R2 and R3 do not apply to expiry deletes (C17 decides those)
 		// ---- R4 (per chain) ----
 		if updater == nil || skipTest == nil {
 			continue
@@ -341,6 +342,37 @@ func checkC07(p *Prog, res *Result, tier string) {
 		for _, cf := range facts {
 			if cf.Call != nil && cf.Call.Common().StaticCallee() == skipTest && !cf.Want {
 				guarded = true
+			}
+		}
+		// the key the skip discipline compares and records must be the user key of the record (decoded from the
+		// iterator key, or the loop-carried previous user key) - never an engine key, which no later record equals
+		for _, cf := range facts {
+			if cf.Call == nil || cf.Call.Common().StaticCallee() != skipTest || cf.Want {
+				continue
+			}
+			var keyArg ssa.Value
+			for ai, a := range cf.Call.Common().Args {
+				if ai == 0 && skipTest.Signature.Recv() != nil {
+					continue
+				}
+				if sl, ok := a.Type().Underlying().(*types.Slice); ok {
+					if bt, ok := sl.Elem().Underlying().(*types.Basic); ok && bt.Kind() == types.Byte {
+						keyArg = a
+						break
+					}
+				}
+			}
+			if keyArg == nil {
+				continue
+			}
+			c2 := fmt.Sprintf("%s: %s hands the record's user key to the skipped-key test", funcName(run), tag)
+			switch userKeyProvenance(r, ch.up(keyArg, cf.level), 0) {
+			case 1:
+				res.ok("C07-R4", c2, pos, "decoded user key of the current / previous record")
+			case -1:
+				res.bad("C07-R4", c2, pos, "the skipped-key discipline is given an engine key instead of the record's user key: after a failed delete the other records of that key are not recognised as belonging to it and are still deleted: "+ch.String())
+			default:
+				res.und("C07-R4", c2, pos, "provenance of the key handed to the skipped-key test not resolved")
 			}
 		}
 		if guarded {
@@ -438,7 +470,51 @@ func checkC07(p *Prog, res *Result, tier string) {
 		if o.Rule == "C11-R1" && strings.Contains(o.Construct, "DelCurrent") {
 			res.add("C07-R6", o.Rule+" "+o.Construct, o.Status, o.Pos, o.Detail)
 		}
+		// the metrics wrapper sits between the compaction worker and every engine: it must hand the delete on as it
+		// is and hand its error back (the worker's failed-delete discipline, R4, keys on that error)
+		if o.Rule == "C11-R5" && (strings.HasSuffix(o.Construct, ".Del") || strings.HasSuffix(o.Construct, ".DelCurrent")) {
+			res.add("C07-R6", o.Rule+" "+o.Construct, o.Status, o.Pos, o.Detail)
+		}
 	}
+}
+
+// userKeyProvenance: 1 = v is a decoded user key (result #0 of Coder.Decode, or a loop-carried copy of one),
+// -1 = v is an engine key (iterator key or an encoded key), 0 = unknown.
+func userKeyProvenance(r *Roles, v ssa.Value, depth int) int {
+	if depth > 6 {
+		return 0
+	}
+	v = resolve(v)
+	switch x := v.(type) {
+	case *ssa.Extract:
+		if c, ok := x.Tuple.(*ssa.Call); ok && r.is(c, r.Decode) && x.Index == 0 {
+			return 1
+		}
+	case *ssa.Call:
+		if r.is(x, r.ItKey) || r.is(x, r.EncObj) || r.is(x, r.EncRev) {
+			return -1
+		}
+	case *ssa.Phi:
+		res := 0
+		for _, e := range x.Edges {
+			if k, ok := e.(*ssa.Const); ok && k.IsNil() {
+				continue
+			}
+			if e == ssa.Value(x) {
+				continue
+			}
+			switch userKeyProvenance(r, e, depth+1) {
+			case -1:
+				return -1
+			case 1:
+				res = 1
+			default:
+				return 0
+			}
+		}
+		return res
+	}
+	return 0
 }
 
 // onlyReturned: the value's only use (besides debug refs) is as a result of its function.
